@@ -253,8 +253,18 @@ fn check_system(cx: &mut Cx, sub: &mut u64, s: &Sys) {
                "fixed": s.fixed.iter().enumerate().filter(|(_, f)| **f).map(|(i, _)| i).collect::<Vec<_>>(),
                "start_at_solution": s.start_at_solution})
     };
-    let vm = run_backend::<VmFunction>(cx, s, "vm", &desc);
-    let jit = run_backend::<JitFunction>(cx, s, "jit", &desc);
+    // The solver iterates over std HashMaps, whose order differs from map to
+    // map; every system is solved three times (fresh maps each time) so that
+    // an order-dependent defect has several chances to show
+    let mut vm = None;
+    let mut jit = None;
+    for _rep in 0..3 {
+        vm = run_backend::<VmFunction>(cx, s, "vm", &desc);
+        jit = run_backend::<JitFunction>(cx, s, "jit", &desc);
+        if vm.is_none() || jit.is_none() {
+            break;
+        }
+    }
     if let (Some(a), Some(b)) = (vm, jit) {
         // for square full-rank systems the solution is unique: compare backends
         let rows = matrix(s.fam, s.n).len();
@@ -289,13 +299,16 @@ impl Check for C19 {
                 Tier::Quick => "n in 1..=6 exhaustive over subsets; n in {7,8,9,10,13,16,25,40}".into(),
                 Tier::Thorough => "n in 1..=6 exhaustive over subsets; every n in 7..=40".into(),
             },
-            assumptions: vec!["HashMap iteration order inside the solver is not controlled (RandomState); the oracle is order-independent".into()],
+            assumptions: vec!["HashMap iteration order inside the solver is not controlled (std RandomState, different for every map): the oracle is order-independent, every system is solved 3 times, and a replay re-runs the case up to 30 times".into()],
             crash_policy: CrashPolicy::Violation,
             vacuity: vec![("solutions_checked", 500)],
             transitions_counter: "evals",
             nontrivial_counter: "nontrivial",
             exhaustive: true,
         }
+    }
+    fn replay_attempts(&self) -> u32 {
+        30
     }
     fn run_unit(&self, tier: Tier, unit: usize, cx: &mut Cx) {
         let mut sub = 0u64;
